@@ -63,6 +63,9 @@ func extend(l, seg string) string {
 
 type ModAnalysis struct {
 	prog  *Program
+	// Caps(f): "dst <- src" pairs: a reference rooted at src (parameter/global) is stored into
+	// memory rooted at dst (parameter/global) by f or its callees — the object at dst now aliases src.
+	Caps  map[*ssa.Function]locSet
 	Mods  map[*ssa.Function]locSet
 	Rets  map[*ssa.Function][]locSet
 	funcs []*ssa.Function
@@ -87,7 +90,7 @@ type ModAnalysis struct {
 }
 
 func newModAnalysis(p *Program, exempt ...*ssa.Function) *ModAnalysis {
-	m := &ModAnalysis{prog: p, exempt: map[*ssa.Function]bool{}, Mods: map[*ssa.Function]locSet{}, Rets: map[*ssa.Function][]locSet{}, known: map[*ssa.Function]bool{},
+	m := &ModAnalysis{prog: p, exempt: map[*ssa.Function]bool{}, Caps: map[*ssa.Function]locSet{}, Mods: map[*ssa.Function]locSet{}, Rets: map[*ssa.Function][]locSet{}, known: map[*ssa.Function]bool{},
 		allocID: map[ssa.Value]int{}, allocVal: map[string]ssa.Value{}, deep: map[*ssa.Function]locSet{}, deepBusy: map[*ssa.Function]bool{}, pts: map[*ssa.Function]map[string]locSet{}, AssumedPure: map[string]bool{}, impls: map[string][]*ssa.Function{}, DynCalls: map[string]bool{}}
 	for _, f := range exempt {
 		if f != nil {
@@ -116,6 +119,7 @@ func (m *ModAnalysis) addFunc(f *ssa.Function) {
 	m.known[f] = true
 	m.funcs = append(m.funcs, f)
 	m.Mods[f] = locSet{}
+	m.Caps[f] = locSet{}
 	n := f.Signature.Results().Len()
 	rs := make([]locSet, n)
 	for i := range rs {
@@ -524,6 +528,26 @@ func (m *ModAnalysis) analyse(f *ssa.Function) {
 			m.changed = true
 		}
 	}
+	caps := m.Caps[f]
+	nonLocal := func(l string) bool {
+		r := locRoot(l)
+		return !strings.HasPrefix(r, "a:") && r != "fresh"
+	}
+	addCap := func(dst, src locSet) {
+		for d := range dst {
+			if !nonLocal(d) {
+				continue
+			}
+			for sl := range src {
+				if !nonLocal(sl) {
+					continue
+				}
+				if caps.add(d + " <- " + sl) {
+					m.changed = true
+				}
+			}
+		}
+	}
 	writeAll := func(s locSet, seg string) {
 		for l := range s {
 			if seg != "" {
@@ -539,6 +563,10 @@ func (m *ModAnalysis) analyse(f *ssa.Function) {
 				for x := range a.translate(l, ci.args, ci.bindings) {
 					addMod(x)
 				}
+			}
+			for pair := range m.Caps[ci.fn] {
+				i := strings.Index(pair, " <- ")
+				addCap(a.translate(pair[:i], ci.args, ci.bindings), a.translate(pair[i+4:], ci.args, ci.bindings))
 			}
 		}
 		if lib != nil {
@@ -567,6 +595,9 @@ func (m *ModAnalysis) analyse(f *ssa.Function) {
 		switch bi {
 		case "copy":
 			writeAll(a.derive(com.Args[0]), "[*]")
+			if sl, ok := com.Args[0].Type().Underlying().(*types.Slice); ok && isRefLike(sl.Elem()) {
+				addCap(a.ext(a.derive(com.Args[0]), "[*]"), a.ext(a.derive(com.Args[1]), "[*]"))
+			}
 		case "delete", "clear":
 			writeAll(a.derive(com.Args[0]), "[*]")
 		default:
@@ -612,6 +643,9 @@ func (m *ModAnalysis) analyse(f *ssa.Function) {
 						continue
 					}
 					addMod(l)
+					if isRefLike(in.Val.Type()) {
+						addCap(locSet{l: true}, a.derive(in.Val))
+					}
 				}
 			case *ssa.MapUpdate:
 				for l := range a.derive(in.Map) {
@@ -632,6 +666,9 @@ func (m *ModAnalysis) analyse(f *ssa.Function) {
 						continue
 					}
 					addMod(extend(l, "[*]"))
+					if isRefLike(in.Value.Type()) {
+						addCap(locSet{extend(l, "[*]"): true}, a.derive(in.Value))
+					}
 				}
 			case *ssa.Call:
 				doCall(in.Common(), in)
@@ -1002,4 +1039,19 @@ func (a *modFn) fieldOverridden(root, field string) bool {
 		}
 	}
 	return false
+}
+
+// CapturesFrom: the "dst <- src" pairs of f whose source is rooted at parameter src and whose
+// destination is rooted at parameter dst.
+func (m *ModAnalysis) CapturesFrom(f *ssa.Function, dst, src int) []string {
+	var out []string
+	dr, sr := fmt.Sprintf("p%d", dst), fmt.Sprintf("p%d", src)
+	for pair := range m.Caps[f] {
+		i := strings.Index(pair, " <- ")
+		if locRoot(pair[:i]) == dr && locRoot(pair[i+4:]) == sr {
+			out = append(out, pair)
+		}
+	}
+	sort.Strings(out)
+	return out
 }
